@@ -104,6 +104,35 @@ fn date_dur(rng: &mut Rng) -> Vec<i128> {
 
 pub fn generate(rng: &mut Rng, thorough: bool) -> Vec<String> {
     let mut v = Vec::new();
+    // until / since with a smallest unit and an increment, every rounding mode, on exact ties and next to them
+    // (since() is the negation of until() with the mode mirrored: ceil <-> floor, halfCeil <-> halfFloor)
+    for m in MODES {
+        for _ in 0..(if thorough { 40 } else { 8 }) {
+            let (y, mo, d) = (rng.range(1900, 2100), rng.range(1, 12), rng.range(1, 28));
+            let inc = *rng.pick(&[2i128, 4, 6, 10, 14]);
+            let k = rng.range(0, 20);
+            let off = k * inc + inc / 2 + *rng.pick(&[0i128, 0, 0, 1, -1]);
+            let (y2, m2, d2) = {
+                let e = temporal_rs::verif_hooks::epoch_days_from_gregorian_date(y as i32, mo as u8, d as u8) as i128 + off * *rng.pick(&[1i128, -1]);
+                let (a, b, c) = temporal_rs::verif_hooks::ymd_from_epoch_milliseconds((e * 86_400_000) as i64);
+                (a as i128, b as i128, c as i128)
+            };
+            for op in ["pd_until", "pd_since"] {
+                v.push(format!("{op} {y} {mo} {d} {y2} {m2} {d2} day day {inc} {m}"));
+                v.push(format!("{op} {y} {mo} {d} {y2} {m2} {d2} - day {inc} {m}"));
+            }
+            // half a week, half a month of 28 / 30 days, half a year
+            for (dy, dm, dd, l, su) in [(0i128, 0i128, 3i128, "week", "week"), (0, 0, 4, "week", "week"), (0, 0, 14, "month", "month"), (0, 0, 15, "month", "month"), (0, 6, 0, "year", "year"), (0, 6, 1, "year", "year")] {
+                let (yy, mm) = (y + dy + (mo - 1 + dm) / 12, (mo - 1 + dm) % 12 + 1);
+                let e = temporal_rs::verif_hooks::epoch_days_from_gregorian_date(yy as i32, mm as u8, d as u8) as i128 + dd;
+                let (a, b, c) = temporal_rs::verif_hooks::ymd_from_epoch_milliseconds((e * 86_400_000) as i64);
+                for op in ["pd_until", "pd_since"] {
+                    v.push(format!("{op} {y} {mo} {d} {a} {b} {c} {l} {su} 1 {m}"));
+                    v.push(format!("{op} {a} {b} {c} {y} {mo} {d} {l} {su} 1 {m}"));
+                }
+            }
+        }
+    }
     let n = if thorough { 400_000 } else { 50_000 };
     for k in 0..n {
         let (y, m, d) = pick_date(rng);
